@@ -1147,7 +1147,7 @@ theorem C08_restrict_unique (d : Dump) (h : WF d) (t : Tree) (ht : treeOf d = .o
     model's result satisfies EVERY topology-level clause of `WF` (all 18 entries of `topClauses`: the 11 of
     C08_restrict_from_wf_partial, the 4 of C08_restrict_from_wf_top_partial, the 3 uniqueness clauses).
     `_partial` with respect to C08_restrict_wf: `coverT` is a hypothesis, `treeOf d = .ok t` is a hypothesis (it does NOT follow from
-    `WF d`: WF does not force parents to precede their children in the object list, which `treeOf` requires), and of the 30
+    `WF d`: WF does not force parents to precede their children in the object list, which `treeOf` requires), and of the 29
     object-level clauses 14 are proved (`provedObjClauses`); the set / memory / attribute clauses are still judged by wfCheck. -/
 theorem C08_restrict_wf_top_partial (d : Dump) (h : WF d) (t : Tree) (ht : treeOf d = .ok t)
     (hf1 : filterOf d.filters tPU ≠ filterKeepStructure) (hf2 : filterOf d.filters tMACHINE ≠ filterKeepStructure)
@@ -1186,5 +1186,21 @@ theorem C08_restrict_wf_top_partial (d : Dump) (h : WF d) (t : Tree) (ht : treeO
 example : osUniqueT tPU demoMerge.tree ∧ osUniqueT tNUMA demoMerge.tree ∧
     topClauses.all (fun c => c.2 (afterDump demoMerge 0 ⟨1, false⟩ (flagByNodeset ||| flagRemoveMemless) (fun _ => {}))
       (mkAux (afterDump demoMerge 0 ⟨1, false⟩ (flagByNodeset ||| flagRemoveMemless) (fun _ => {})))) = true := by decide +kernel
+
+/-- (3) two more object-level clauses of the result from `WF d` alone: **type-in-range** (typing is preserved) and
+    **not-filtered-out** (`notFilteredT` holds for the tree of a WF dump; restrict produces no object of a new type and does not
+    touch the filters) — 16 object-level clauses with `provedObjClauses` -/
+theorem C08_restrict_type_filter (d : Dump) (h : WF d) (t : Tree) (ht : treeOf d = .ok t) (s : CSet) (flags : Nat) (ex : RObj → Extra) :
+    let T : Topo := { tree := t, allowedCpu := d.allowedCpuset.getD 0, allowedNode := d.allowedNodeset.getD 0, filters := d.filters }
+    let D := afterDump T d.flags s flags ex
+    notFilteredT d.filters t = true ∧
+    ∀ o ∈ D.objs, objClause "type-in-range" D (mkAux D) o = true ∧ objClause "not-filtered-out" D (mkAux D) o = true := by
+  intro T D
+  obtain ⟨_, hty, _, hr, _, _, _⟩ := wf_treeOf_full h t ht
+  have hn := wf_notFiltered h t ht
+  refine ⟨hn, fun o ho => ?_⟩
+  have r := render_type_filter (restrict T s flags).1.tree
+    ⟨d.flags, (restrict T s flags).1.filters, some (restrict T s flags).1.allowedCpu, some (restrict T s flags).1.allowedNode⟩ ex o ho
+  exact ⟨r.1 (typed_restrict T s flags hty hr).1, r.2 (notFiltered_restrict T s flags hn)⟩
 
 end Hw.Props.C08
